@@ -61,17 +61,32 @@ fn gen_location(ctx: &mut Ctx, rich: bool, cur: &RefUri) -> (String, &'static st
         2 => ":443",
         _ => "",
     };
-    let q = match ctx.draw(4) {
+    let q = match ctx.draw(if rich { 6 } else { 4 }) {
         0 => "?k=v",
         1 => "?a=1&b=2",
+        4 => "?next=http://a.test/home",
+        5 => "?u=https://c.test:8443/x?y#z",
+        _ => "",
+    };
+    // userinfo is legal in an absolute or scheme-relative reference and is not part of the origin
+    let ui = match ctx.draw(12) {
+        0 => "u@",
+        1 => "a.test:x@",
+        2 => "b.test@",
         _ => "",
     };
     let frag = if rich && ctx.chance(1, 4) { "#frag" } else { "" };
     let forms = if rich { 9 } else { 5 };
     let (s, form) = match ctx.draw(forms) {
-        0 => (format!("http://{}{}/{}{}", host, port, rel_path(ctx, rich), q), "absolute-http"),
-        1 => (format!("https://{}{}/{}{}", host, port, rel_path(ctx, rich), q), "absolute-https"),
-        2 => (format!("//{}{}/{}{}", host, port, rel_path(ctx, false), q), "scheme-relative"),
+        0 => (format!("http://{}{}{}/{}{}", ui, host, port, rel_path(ctx, rich), q), "absolute-http"),
+        1 => {
+            if rich && ctx.chance(1, 10) {
+                (format!("HTTPS://{}{}/{}{}", host.to_ascii_uppercase(), port, rel_path(ctx, false), q), "absolute-uppercase")
+            } else {
+                (format!("https://{}{}{}/{}{}", ui, host, port, rel_path(ctx, rich), q), "absolute-https")
+            }
+        }
+        2 => (format!("//{}{}{}/{}{}", ui, host, port, rel_path(ctx, false), q), "scheme-relative"),
         3 => (format!("/{}{}", rel_path(ctx, rich), q), "path-absolute"),
         4 => (format!("{}{}", rel_path(ctx, rich), q), "path-relative"),
         5 => (format!("{}{}", *ctx.pick(&["./", "../", "../../", "./x", "../x/./y", "."]), q), "dot-relative"),
@@ -181,15 +196,19 @@ fn chain(ctx: &mut Ctx, prop: &'static str) -> R {
     }
     if with_cookie {
         crate::reqgen::insert_at(ctx, &mut orig, ("cookie".into(), cookie_secret.clone()));
-        if ctx.chance(1, 4) {
+        if ctx.chance(1, 3) {
             crate::reqgen::insert_at(ctx, &mut orig, ("Cookie".into(), format!("pref=S3CR3T-COOKIE-{}-b", tag).into_bytes()));
+            if ctx.chance(1, 2) {
+                // a third field of the same name, ahead of everything else
+                orig.insert(0, ("cookie".into(), format!("t=S3CR3T-COOKIE-{}-c", tag).into_bytes()));
+            }
         }
     }
     let needs = method_needs_body(&method);
     let mut framing = Framing::None;
     // a body-less method sent with a body despite the method carries a Content-Length too
     let despite0 = !needs && ctx.chance(1, if prop == "C13" { 3 } else { 8 });
-    if (needs || despite0) && (prop == "C13" || despite0 || ctx.chance(1, 2)) {
+    if (needs || despite0) && (prop == "C13" || ctx.chance(1, 2)) {
         crate::reqgen::insert_at(ctx, &mut orig, ("content-length".into(), cl_secret.to_string().into_bytes()));
         framing = Framing::Sized(cl_secret, false);
     }
@@ -329,6 +348,14 @@ fn chain(ctx: &mut Ctx, prop: &'static str) -> R {
             despite_pending = false;
             ctx.count("p:despite_after_headers");
         }
+        // a caller may also decide to send a body with the redirected (body-less) request
+        let mut despite_here = false;
+        if depth >= 1 && !method_needs_body(&cur.method) && !cur.added.iter().any(|(n, _)| n == "content-length") && ctx.chance(1, 10) {
+            lib("Flow<Prepare>::send_body_despite_method", || flow.send_body_despite_method());
+            despite_here = true;
+            cur.body = body_bytes(seed, 7, ctx.range(0, 20));
+            ctx.count("p:despite_method_on_redirected_flow");
+        }
         // ---- C14: the flow's own idea of where it goes
         let flow_uri = lib("Flow<Prepare>::uri", || uri_of(flow.uri()));
         let flow_method = lib("Flow<Prepare>::method", || flow.method().as_str().to_string());
@@ -388,7 +415,12 @@ fn chain(ctx: &mut Ctx, prop: &'static str) -> R {
                             locs.push(gen_location(ctx, true, &cur.uri).0);
                         }
                     }
-                    let (l, f) = gen_location(ctx, rich, &cur.uri);
+                    let (l, f) = if (prop == "C13" || prop == "C16") && ctx.chance(1, 10) {
+                        // back to exactly where it all started
+                        (uri0.render(), "original-uri")
+                    } else {
+                        gen_location(ctx, rich, &cur.uri)
+                    };
                     form = f;
                     locs.push(l);
                 }
@@ -462,7 +494,7 @@ fn chain(ctx: &mut Ctx, prop: &'static str) -> R {
                 fail!("FOREIGN", "", "hop {}: no complete head at the origin: {:?}", depth, other.map(|o| o.map(|p| p.len)));
             }
         };
-        let exp_cfg = ReqCfg { method: cur.method.clone(), version, uri: cur.uri.clone(), orig: orig.clone(), added: cur.added.clone(), despite: despite0 && depth == 0, framing: if depth == 0 { framing.clone() } else { Framing::None }, expect: false };
+        let exp_cfg = ReqCfg { method: cur.method.clone(), version, uri: cur.uri.clone(), orig: orig.clone(), added: cur.added.clone(), despite: (despite0 && depth == 0) || despite_here, framing: if depth == 0 { framing.clone() } else { Framing::None }, expect: false };
         let exp = expected_head(&exp_cfg, &cur.suppressed);
         let head_cmp = compare_head(&parsed, &exp);
         match prop {
